@@ -594,7 +594,7 @@ def obligations(tier):
     obs.append(Obligation("C08/S4d/verbs_across_subquery", "S4", "verbs after alias() (renames, constant columns of an aliased join operand, grouping / ordering on them, window columns, name collisions): same table as on Polars (= C16/X9)",
                           c16._conc("pipelines with alias() give the same table on SQLite as on Polars", c16.x9_check), functions=fns, bounded="15 pipelines x 2 backends on one 6-row table"))
     obs.append(Obligation("C08/S4c/outer_join_matrix", "S4", "joins whose operand needs a subquery (computed / constant columns on the null-extended side, also below alias() and below a nested join): refused, or accepted with the expected rows (native, Python oracle)",
-                          c06.n5_run, functions=fns, bounded="the C06/N5 join matrix: 15 predicate shapes x 3 join kinds x 13 operand variants x 2 backends"))
+                          c06.n5_core_run, functions=fns, bounded="the C06/N5 join matrix: 15 predicate shapes x 3 join kinds x 13 operand variants x 2 backends"))
     obs.append(Obligation("C08/J6/base", "J6", "base case: empty clause state of a source table", j6_base_run, functions=[fi(TS.Cache.from_ast), fi(H.sql_backend.SqlImpl.compile_ast)], bounded="one source table per backend (the constructor takes no other input that influences the clause state)"))
     for s in STATES:
         if s.c1_hidden:
